@@ -277,7 +277,8 @@ def write_evidence(cid, mod, tier, seed, merged, new, old, wall):
         "wall_s": round(wall, 2),
         "violations": len(new),
     }
-    d = os.path.join(bootstrap.VERIF, "evidence")
+    # (a drill against a scratch copy must not overwrite the evidence of /repo itself)
+    d = os.environ.get("NSL_VERIF_EVIDENCE_DIR") or os.path.join(bootstrap.VERIF, "evidence")
     os.makedirs(d, exist_ok=True)
     with open(os.path.join(d, cid + ".json"), "w") as f:
         json.dump(ev, f, indent=1, default=str, sort_keys=False)
